@@ -244,6 +244,58 @@ func m1sGen(cfg config, emit func(Case)) {
 	for _, c := range corpus {
 		emit(Case{Class: "corpus", Input: c, Comment: "corpus", Check: m1sMonitor(c)})
 	}
+	// structured multi-client scenarios: a timeout / failed write / disconnect of one client placed
+	// right after another client went idle or between two events of another client
+	for i := 0; i < 12+cfg.n/10; i++ {
+		variant := int64(rng.Intn(2))
+		in := []int64{variant, 0, int64(rng.Intn(2)), 9, 6, 1, 6, 2, 6, 3}
+		id := int64(1)
+		a, b := int64(1+rng.Intn(3)), int64(1+rng.Intn(3))
+		if a == b {
+			b = a%3 + 1
+		}
+		nb := 1 + rng.Intn(3)
+		var bids []int64
+		// interleave: b gets nb requests, a gets one
+		order := rng.Intn(2)
+		if order == 0 {
+			in = append(in, 1, a, id, 1)
+		}
+		aid := id
+		id++
+		for k := 0; k < nb; k++ {
+			in = append(in, 1, b, id, 1)
+			bids = append(bids, id)
+			id++
+		}
+		if order == 1 {
+			aid = id
+			in = append(in, 1, a, id, 1)
+			id++
+		}
+		if rng.Intn(4) != 0 {
+			in = append(in, 2, a, aid, int64(rng.Intn(2))) // a completes its last request: a idle
+		}
+		switch rng.Intn(4) {
+		case 0, 1:
+			in = append(in, 3, b) // b's outstanding request times out
+		case 2:
+			in = append(in, 7, b, 1, 3, b, 7, b, 0) // times out, the next writes fail
+		case 3:
+			in = append(in, 5, b, 6, b)
+			bids = nil
+		}
+		if rng.Intn(2) == 0 {
+			in = append(in, 1, a, id, 1, 2, a, id, 0)
+			id++
+		}
+		for _, x := range bids {
+			in = append(in, 2, b, x, 0)
+		}
+		in = append(in, 1, b, id, 1, 2, b, id, 0, 3, a, 3, b)
+		cc := append([]int64(nil), in...)
+		emit(Case{Class: "neighbours", Input: cc, Comment: "", Check: m1sMonitor(cc)})
+	}
 	for i := 0; i < cfg.n; i++ {
 		variant := int64(rng.Intn(2))
 		capacity := []int64{0, 0, 1, 2, 3}[rng.Intn(5)]
@@ -337,6 +389,8 @@ func m1sGen(cfg config, emit func(Case)) {
 
 func init() {
 	properties["m1s"] = []*Entry{{Name: "m1s", Eval: m1sEval, Gen: m1sGen, Isolated: true}}
+	// the endpoint-level run shared by C01 C02 C07 C09 C10 C11 C16: client and server histories
+	properties["m1"] = append(append([]*Entry{}, properties["m1c"]...), properties["m1s"]...)
 }
 
 // m1sMonitor: property conclusions evaluated on the implementation's observations alone.
@@ -376,8 +430,13 @@ func m1sMonitor(in []int64) func(obs []int64) (string, string) {
 		lastW := map[int64]int64{}
 		outstanding := map[int64]int64{}
 		connected := map[int64]bool{}
+		stoppedNow := false
 		for i, seg := range segs {
 			l := labs[i]
+			outBefore := int64(0)
+			if l[0] == 2 {
+				outBefore = outstanding[l[1]]
+			}
 			var ws, cbs [][]int64
 			for j := 0; j < len(seg); {
 				switch seg[j] {
@@ -487,15 +546,29 @@ func m1sMonitor(in []int64) func(obs []int64) (string, string) {
 					outstanding = map[int64]int64{}
 				}
 			}
-			if l[0] == 2 && l[2] != outstanding[l[1]] && len(ws)+len(cbs) > 0 {
-				ok := false
-				for _, c := range cbs {
-					if c[2] == l[2] {
-						ok = true
+			if l[0] == 8 {
+				stoppedNow = true
+			}
+			if l[0] == 9 {
+				stoppedNow = false
+			}
+			if l[0] == 2 && l[2] == outBefore && outBefore != 0 && !concluded[key{l[1], outBefore}] {
+				return "C01-C09-C11-genuine-reply-dropped", fmt.Sprintf("event %d: client %d: the reply carrying the outstanding id %d was not delivered to its caller", i, l[1], outBefore)
+			}
+			if l[0] == 2 && l[2] != outBefore && len(ws)+len(cbs) > 0 {
+				return "C09-foreign-reply-effect", fmt.Sprintf("event %d: reply with foreign id %d on client %d (outstanding %d) caused writes/callbacks", i, l[2], l[1], outBefore)
+			}
+		}
+		if !stoppedNow {
+			for c := range connected {
+				pendingN := 0
+				for k := range accepted {
+					if k.c == c && !concluded[k] {
+						pendingN++
 					}
 				}
-				if !ok {
-					return "C09-foreign-reply-effect", fmt.Sprintf("event %d: reply with foreign id %d on client %d caused writes/callbacks", i, l[2], l[1])
+				if pendingN > 0 && outstanding[c] == 0 {
+					return "C01-C07-C11-stall", fmt.Sprintf("client %d: %d accepted request(s) neither concluded nor outstanding at the end of the history although the client is connected", c, pendingN)
 				}
 			}
 		}
